@@ -47,6 +47,20 @@ Inductive bstmt :=
 | BRet (x : dret)
 | BUnknown (s : string).
 
+(** proxy.hostConn, statement by statement *)
+Inductive host_step :=
+| HDeferCloseFront      (* defer conn.Close() *)
+| HWrap                 (* bc := NewTLSHelloConn(conn) *)
+| HSniff                (* hello, err := bc.HelloInfo() *)
+| HRetIfErr             (* if err != nil { return err } *)
+| HRejectIf             (* if isRejectedDomain(hello.ServerName) { return errNameRejected } *)
+| HAddr                 (* addr := conn.RemoteAddr().String() *)
+| HDial                 (* remote, err := p.dialer.dial(ctx, hello, addr) *)
+| HCloser               (* closer := &closerOnce{Closer: remote} *)
+| HDeferCloseRemote     (* defer closer.Close() *)
+| HJoin                 (* return netutil.JoinConn(ctx, remote, bc) *)
+| HUnknown (s : string).
+
 Inductive dial_step :=
 | DNoLookup                              (* if s.lookup == nil { return nil, Internalf(...) } *)
 | DDomain                                (* domain := hello.ServerName *)
@@ -309,6 +323,93 @@ Definition refusal (r : route) : bool :=
 Definition crashes (r : route) : bool :=
   match r with RPanic | RNilConn | RStuck => true | _ => false end.
 
+(** ** hostConn: from the accepted front connection to the join *)
+
+(** What happened to one front connection. *)
+Record front_out := mkOut {
+  fo_front_closed : bool;         (* conn.Close() ran (deferred, or inside JoinConn) *)
+  fo_dial : option route;         (* the dialer was called, with this result *)
+  fo_joined : bool;               (* JoinConn(remote, bc) ran: bytes flow to the dialled destination *)
+  fo_remote_closed : bool         (* a connection that was dialled is closed again on return *)
+}.
+
+Inductive front_res := FOut (o : front_out) | FCrash | FStuck.
+
+Record hstate := mkHs {
+  hs_defer_front : bool;
+  hs_sniffed : option (option bytes);   (* None: not yet; Some None: HelloInfo failed *)
+  hs_err : bool;
+  hs_dial : option route;
+  hs_remote : bool;                     (* remote is a live connection *)
+  hs_closer : bool;
+  hs_defer_remote : bool
+}.
+
+Definition hs0 : hstate := mkHs false None false None false false false.
+
+Definition ret_out (h : hstate) (joined : bool) : front_res :=
+  FOut (mkOut (hs_defer_front h || joined) (hs_dial h) joined
+              (hs_remote h && (hs_defer_remote h || joined))).
+
+(** [sniff]: what HelloInfo returns (None: an error); [dial_ok]: whether the
+    dial of a route that selects a destination succeeds (the endpoint accepts,
+    the side connection arrives, the home / forward target answers). *)
+Fixpoint run_front (rj : list rj_step) (dsteps : list dial_step) (cfg : server_cfg)
+         (sniff : option bytes) (dial_ok : bool) (steps : list host_step) (h : hstate) : front_res :=
+  match steps with
+  | [] => FStuck
+  | HDeferCloseFront :: r =>
+      run_front rj dsteps cfg sniff dial_ok r
+        (mkHs true (hs_sniffed h) (hs_err h) (hs_dial h) (hs_remote h) (hs_closer h) (hs_defer_remote h))
+  | HWrap :: r | HAddr :: r => run_front rj dsteps cfg sniff dial_ok r h
+  | HSniff :: r =>
+      run_front rj dsteps cfg sniff dial_ok r
+        (mkHs (hs_defer_front h) (Some sniff) (negb (is_some sniff)) (hs_dial h) (hs_remote h)
+              (hs_closer h) (hs_defer_remote h))
+  | HRetIfErr :: r =>
+      match hs_sniffed h with
+      | None => FStuck
+      | Some _ => if hs_err h then ret_out h false else run_front rj dsteps cfg sniff dial_ok r h
+      end
+  | HRejectIf :: r =>
+      match hs_sniffed h with
+      | Some (Some name) =>
+          match run_rj rj name with
+          | Some true => ret_out h false
+          | Some false => run_front rj dsteps cfg sniff dial_ok r h
+          | None => FStuck
+          end
+      | Some None => FCrash          (* hello is nil *)
+      | None => FStuck
+      end
+  | HDial :: r =>
+      match hs_sniffed h with
+      | Some (Some name) =>
+          let rt := run_dial cfg name dsteps st0 in
+          if crashes rt then FCrash
+          else
+            let ok := served rt && dial_ok in
+            run_front rj dsteps cfg sniff dial_ok r
+              (mkHs (hs_defer_front h) (hs_sniffed h) (negb ok) (Some rt) ok (hs_closer h) (hs_defer_remote h))
+      | Some None => FCrash
+      | None => FStuck
+      end
+  | HCloser :: r =>
+      run_front rj dsteps cfg sniff dial_ok r
+        (mkHs (hs_defer_front h) (hs_sniffed h) (hs_err h) (hs_dial h) (hs_remote h) true (hs_defer_remote h))
+  | HDeferCloseRemote :: r =>
+      if hs_closer h then
+        run_front rj dsteps cfg sniff dial_ok r
+          (mkHs (hs_defer_front h) (hs_sniffed h) (hs_err h) (hs_dial h) (hs_remote h) true true)
+      else FStuck
+  | HJoin :: _ =>
+      match hs_dial h with
+      | None => FStuck
+      | Some _ => if hs_remote h then ret_out h true else FCrash   (* JoinConn on a nil connection *)
+      end
+  | HUnknown _ :: _ => FStuck
+  end.
+
 (** ** Decidable predicates on emitted lists *)
 
 (** Whatever dest is, with err != nil the guard fires ... *)
@@ -393,6 +494,18 @@ Definition deployed_host_conn_calls : list string :=
   [ "conn.Close/0"; "NewTLSHelloConn/1"; "bc.HelloInfo/0"; "isRejectedDomain/1";
     "conn.RemoteAddr().String/0"; "conn.RemoteAddr/0"; "p.dialer.dial/3";
     "closer.Close/0"; "netutil.JoinConn/3" ].
+
+Definition deployed_host_steps : list host_step :=
+  [ HDeferCloseFront; HWrap; HSniff; HRetIfErr; HRejectIf; HAddr; HDial; HRetIfErr;
+    HCloser; HDeferCloseRemote; HJoin ].
+
+Definition host_step_eqb (a b : host_step) : bool :=
+  match a, b with
+  | HDeferCloseFront, HDeferCloseFront | HWrap, HWrap | HSniff, HSniff | HRetIfErr, HRetIfErr
+  | HRejectIf, HRejectIf | HAddr, HAddr | HDial, HDial | HCloser, HCloser
+  | HDeferCloseRemote, HDeferCloseRemote | HJoin, HJoin => true
+  | _, _ => false
+  end.
 
 Definition rj_step_eqb (a b : rj_step) : bool :=
   match a, b with
